@@ -325,6 +325,58 @@ def check_daughters(ctx, fpart):
            "daughters come from partitioning the mother's final state, the mother's schnitz is the parent, daughters start at the mother's last time", str(miss))
 
 
+def check_splitter_choice(ctx):
+    f = ctx.fn('lineage:LineageCSimInterface.partition')
+    a = [x.arg for x in f.args.args[1:]]
+    ind, parent = a
+    R, E = 2, 2
+    problems = []
+    for v in (-1, 0, 1, 2, 3, 4):
+        st = paths.State()
+        st.set(ind, v)
+        st.set('self.num_division_rules', R)
+        st.set('self.num_division_events', E)
+        en = paths.Enumerator()
+        ps = en.run(f.body, st)
+        if len(ps) != 1:
+            problems.append('index %d: %d feasible paths' % (v, len(ps)))
+            continue
+        p = ps[0]
+        valid = 0 <= v < R + E
+        if not valid:
+            if p.exit != 'raise':
+                problems.append('invalid index %d does not raise' % v)
+            continue
+        if p.exit != 'return':
+            problems.append('valid index %d ends with %s' % (v, p.exit))
+            continue
+        choose = [e.node for e in p.stmts() if isinstance(e.node, ast.Assign) and src(e.node.targets[0]) == 'vsplit']
+        ret = p.events[-1].node
+        if len(choose) != 1 or src(ret.value).replace(' ', '') != 'vsplit.partition(%s)' % parent:
+            problems.append('index %d: splitter not chosen once / not used to partition the mother' % v)
+            continue
+        sub = choose[0].value
+        lst = src(sub.value)
+        k_ = p.state.env.get(src(sub.slice), None) if isinstance(sub.slice, ast.Name) else None
+        want = ('self.division_rule_volume_splitters', v) if v < R else ('self.division_event_volume_splitters', v - R)
+        if (lst, k_) != want:
+            problems.append('division index %d uses %s[%s], expected %s[%d]' % (v, lst, k_, want[0], want[1]))
+    ctx.ob('R19.3-splitter-choice', 'LineageCSimInterface.partition', not problems, ctx.loc('lineage', f),
+           'division index i < #rules uses rule splitter i, otherwise event splitter i - #rules; anything else raises', '; '.join(problems))
+    sl = simloop.SimLoop(ctx, 'Lineage')
+    txt = [util.stmt_key(s).replace(' ', '') for s in ast.walk(sl.loop) if isinstance(s, ast.stmt)]
+    ok = 'cell_divided=reaction_choice-self.num_reactions-self.num_volume_events+self.num_division_rules' in txt and \
+        'cell_dead=reaction_choice-self.num_reactions-self.num_volume_events-self.num_division_events+self.num_death_rules' in txt
+    ctx.ob('R19.3-splitter-choice', 'event-index-encoding', ok, sl.where,
+           'a division (death) event j is reported as index #division rules + j (#death rules + j), matching the splitter choice', '')
+    f = ctx.fn('lineage:LineageCSimInterface.apply_division_rules')
+    loops = [s for s in f.body if isinstance(s, ast.For)]
+    ok = len(loops) == 1 and src(loops[0].iter).replace(' ', '') == 'range(self.num_division_rules)' and \
+        any(isinstance(n, ast.Return) and src(n.value) == src(loops[0].target) for n in ast.walk(loops[0])) and \
+        util.stmt_key(f.body[-1]).replace(' ', '') == 'return-1'
+    ctx.ob('R19.3-splitter-choice', 'apply_division_rules', ok, ctx.loc('lineage', f), 'a division rule reports its own index; no rule firing reports -1', '')
+
+
 def check_loop(ctx):
     sl = simloop.SimLoop(ctx, 'Lineage')
     en = paths.Enumerator(assume_nonneg=('Lambda',), snapshot=True, for_nonempty=('range(self.num_species)',))
@@ -406,6 +458,7 @@ def check(ctx):
     check_classes(ctx)
     check_binom(ctx)
     check_daughters(ctx, fl)
+    check_splitter_choice(ctx)
     check_loop(ctx)
     ctx.floor('R19.1-conservation', 3)
     ctx.floor('R19.1-volume', 3)
